@@ -798,3 +798,67 @@ theorem module_state_wf : StateWF (toState moduleRegistry) := by
 
 example : (run [] moduleOps).2 = [.ok, .ok, .ok, .ok, .ok, .ok, .ok] := by decide
 end Biom.C20.Reg
+
+namespace Biom.C20.Reg
+
+theorem find_map_cb (g : Registry) (k : Kind) (cb : Nat) (k' : Kind) :
+    find (g.map (fun x => if x.kind == k then { x with cb := cb } else x)) k' =
+      (find g k').map (fun x => if x.kind == k then { x with cb := cb } else x) := by
+  unfold find
+  induction g with
+  | nil => rfl
+  | cons x xs ih =>
+    simp only [List.map_cons, List.find?_cons]
+    have hk : (if (x.kind == k) = true then ({ x with cb := cb } : Entry) else x).kind = x.kind := by
+      split <;> rfl
+    rw [hk]
+    by_cases hx : (x.kind == k') = true
+    · simp [hx]
+    · have : (x.kind == k') = false := by simpa using hx
+      simp only [this]; exact ih
+
+/-- program-level `seterrcall` is the registry's `setcall`: refused together (unknown kind), and afterwards every kind
+has the same callback in both -/
+theorem setcall_refines_seterrcall (g : Registry) (k : Kind) (cb : Nat) (k' : Kind) :
+    (if (kinds (toState g)).contains k then
+        ((setCall (callsOf g) k cb).lookup k').getD 0
+      else ((callsOf g).lookup k').getD 0)
+      = ((callsOf (step g (.setcall k cb)).1).lookup k').getD 0
+    ∧ ((step g (.setcall k cb)).2 = .keyError ↔ (kinds (toState g)).contains k = false) := by
+  have hc : (kinds (toState g)).contains k = (rkinds g).contains k := by
+    rw [kinds_toState]
+    by_cases h : k ∈ rkinds g
+    · have h' : k ∈ (rkinds g).mergeSort leStr := List.mem_mergeSort.mpr h
+      simp [h, h']
+    · have h' : k ∉ (rkinds g).mergeSort leStr := fun hm => h (List.mem_mergeSort.mp hm)
+      simp [h, h']
+  rw [hc]
+  simp only [step]
+  cases hf : find g k with
+  | none =>
+    have hk : k ∉ rkinds g := find_none.mp hf
+    have : (rkinds g).contains k = false := by simpa using hk
+    simp only [this, Bool.false_eq_true, if_false]
+    exact ⟨trivial, by simp⟩
+  | some e =>
+    have hk : k ∈ rkinds g := by
+      have := find_some hf
+      rw [← this.2]; exact List.mem_map_of_mem (f := (·.kind)) this.1
+    have hkc : (rkinds g).contains k = true := by simpa using hk
+    simp only [hkc, if_true]
+    refine ⟨?_, by simp⟩
+    rw [lookup_callsOf, find_map_cb]
+    by_cases hkk : k' = k
+    · subst hkk
+      rw [setCall_lookup_self, hf]
+      have hek : e.kind = k' := (find_some hf).2
+      simp [hek]
+    · rw [setCall_lookup_other _ _ _ _ hkk, lookup_callsOf]
+      cases hf' : find g k' with
+      | none => rfl
+      | some e' =>
+        have : ¬ e'.kind = k := by
+          have := (find_some hf').2
+          rw [this]; exact hkk
+        simp [this]
+end Biom.C20.Reg
